@@ -1,7 +1,6 @@
 package main
 
 import (
-	"regexp"
 	"context"
 	"encoding/xml"
 	"fmt"
@@ -9,6 +8,7 @@ import (
 	"net/http"
 	"net/http/httptest"
 	"net/url"
+	"regexp"
 	"sort"
 	"strconv"
 	"strings"
@@ -196,6 +196,15 @@ func emitPfResp(o *Out, form string, names []pfName, avail []pfAvail) {
 			pf.PropName = &struct{}{}
 		case "allprop":
 			pf.AllProp = &struct{}{}
+			if len(names) > 0 {
+				// hidden variation: allprop may come with an <include> naming further properties (RFC 4918 section 9.1);
+				// whatever a server does about it, every property is still reported once
+				inc := &internal.Include{}
+				for _, n := range names {
+					inc.Raw = append(inc.Raw, *internal.NewRawXMLElement(xml.Name{Space: n.space, Local: n.local}, nil, nil))
+				}
+				pf.Include = inc
+			}
 		case "prop":
 			var xn []xml.Name
 			for _, n := range names {
@@ -267,6 +276,8 @@ func famPfResp(o *Out, r *RNG, thorough bool) {
 		emitPfResp(o, "prop", nil, av)
 		// every subset of up to 3 names incl. duplicates
 		for i := range reqNames {
+			emitPfResp(o, "allprop", []pfName{reqNames[i]}, av)
+			emitPfResp(o, "allprop", []pfName{reqNames[i], reqNames[(i+3)%len(reqNames)]}, av)
 			emitPfResp(o, "prop", []pfName{reqNames[i]}, av)
 			for j := range reqNames {
 				emitPfResp(o, "prop", []pfName{reqNames[i], reqNames[j]}, av)
@@ -566,6 +577,109 @@ func emitDiscover(o *Out, r *RNG) {
 		}
 		o.Stat("discover." + srv)
 		o.Emit("pf.discover", srv+" "+hx(principal)+" "+hx(homeSet)+" "+sxl(in), res)
+	}
+	emitDiscoverShared(o, r, mount, endpoint)
+}
+
+// the same chain for TWO users served by ONE handler (the backend answers for the user in the request context, as a
+// multi-user deployment does), each user first asking the well-known URL: nothing a handler learnt while serving the
+// first user may show in what the second one is told
+func emitDiscoverShared(o *Out, r *RNG, mount, endpoint string) {
+	type user struct {
+		name, principal, homeSet string
+		colls                    []string
+	}
+	var us []user
+	for i, n := range []string{"u1", "u2"} {
+		p := mount + "/" + r.Pick(owNames) + fmt.Sprint(i) + "/"
+		u := user{name: n, principal: p, homeSet: p + r.Pick(owNames) + "/"}
+		for k := r.Range(0, 2); k > 0; k-- {
+			u.colls = append(u.colls, u.homeSet+r.Pick(owNames)+fmt.Sprint(k)+"/")
+		}
+		us = append(us, u)
+	}
+	for _, srv := range []string{"cal", "card"} {
+		var h http.Handler
+		if srv == "cal" {
+			m := &multiCal{users: map[string]*calBackend{}}
+			for _, u := range us {
+				b := &calBackend{principal: u.principal, homeSet: u.homeSet}
+				for _, c := range u.colls {
+					b.calendars = append(b.calendars, caldav.Calendar{Path: c, Name: "n"})
+				}
+				m.users[u.name] = b
+			}
+			h = &caldav.Handler{Backend: m, Prefix: mount}
+		} else {
+			m := &multiCard{users: map[string]*cardBackend{}}
+			for _, u := range us {
+				b := &cardBackend{principal: u.principal, homeSet: u.homeSet}
+				for _, c := range u.colls {
+					b.books = append(b.books, carddav.AddressBook{Path: c, Name: "n"})
+				}
+				m.users[u.name] = b
+			}
+			h = &carddav.Handler{Backend: m, Prefix: mount}
+		}
+		// u1, u2, then u1 again: the third round sees whatever the second left behind
+		for _, u := range []user{us[0], us[1], us[0]} {
+			u := u
+			res := guard(func() string {
+				ctx := withUser(context.Background(), u.name)
+				// the well-known URL of this service redirects to THIS user's principal
+				wk := "/.well-known/" + map[string]string{"cal": "caldav", "card": "carddav"}[srv]
+				req := httptest.NewRequest("PROPFIND", "http://example.com"+(&url.URL{Path: wk}).EscapedPath(), nil).WithContext(ctx)
+				rec := httptest.NewRecorder()
+				h.ServeHTTP(rec, req)
+				if loc := rec.Header().Get("Location"); rec.Code/100 == 3 {
+					if lu, err := url.Parse(loc); err != nil || lu.Path != u.principal {
+						return "wellknown-redirects-to-" + hx(loc)
+					}
+				}
+				hc := &handlerClient{h: h}
+				var p, hs string
+				var found []string
+				var err error
+				if srv == "cal" {
+					c, _ := caldav.NewClient(hc, endpoint)
+					if p, err = c.FindCurrentUserPrincipal(ctx); err != nil {
+						return "principal-" + errStr(err)
+					}
+					if hs, err = c.FindCalendarHomeSet(ctx, p); err != nil {
+						return "homeset-" + errStr(err)
+					}
+					cals, err := c.FindCalendars(ctx, hs)
+					if err != nil {
+						return "collections-" + errStr(err)
+					}
+					for _, x := range cals {
+						found = append(found, hx(x.Path))
+					}
+				} else {
+					c, _ := carddav.NewClient(hc, endpoint)
+					if p, err = c.FindCurrentUserPrincipal(ctx); err != nil {
+						return "principal-" + errStr(err)
+					}
+					if hs, err = c.FindAddressBookHomeSet(ctx, p); err != nil {
+						return "homeset-" + errStr(err)
+					}
+					books, err := c.FindAddressBooks(ctx, hs)
+					if err != nil {
+						return "collections-" + errStr(err)
+					}
+					for _, x := range books {
+						found = append(found, hx(x.Path))
+					}
+				}
+				return hx(p) + " " + hx(hs) + " " + sxl(found)
+			})
+			var in []string
+			for _, c := range u.colls {
+				in = append(in, hx(c))
+			}
+			o.Stat("discover.shared." + srv)
+			o.Emit("pf.discover", srv+" "+hx(u.principal)+" "+hx(u.homeSet)+" "+sxl(in), res)
+		}
 	}
 }
 
